@@ -551,6 +551,18 @@ class Connection(ExportImport):
         self._added_during_commit = None
 
     def _store_objects(self, writer, transaction):
+        try:
+            self._store_objects_of(writer, transaction)
+        except:  # noqa: E722 do not use bare 'except'
+            # The objects still queued were given an oid and this
+            # connection as their jar by the writer, but they will not
+            # be stored, so no abort will find them: disown them.
+            for obj in writer:
+                del obj._p_jar
+                del obj._p_oid
+            raise
+
+    def _store_objects_of(self, writer, transaction):
         for obj in writer:
             oid = obj._p_oid
             serial = getattr(obj, "_p_serial", z64)
@@ -571,6 +583,12 @@ class Connection(ExportImport):
                 implicitly_adding = self._added.pop(oid, None) is None
 
                 self._creating[oid] = implicitly_adding
+                # Make the object known to _invalidate_creating() even
+                # if storing it fails.
+                try:
+                    self._cache[oid] = obj
+                except:  # noqa: E722 do not use bare 'except'
+                    pass  # wrapped object: handled after the store, below
 
             else:
                 self._modified.append(oid)
